@@ -158,9 +158,9 @@ Fixpoint dec_descs (fuel : nat) (left : Z) : P (option (list desc)) :=
            end
   end.
 
-(* MpegSectionTable.parse + BinarySignal.parse_payload -> (signal, crc_valid) *)
-Definition dec_signal_p (bs : bits) : option (option (signal * bool) * bits) :=
-  (tid <- rd 8 ;; ssi <- rdb ;; priv <- rdb ;; sap <- rd 2 ;; _ <- rd 12 ;;
+(* MpegSectionTable.parse + BinarySignal.parse_payload, up to (excluding) the CRC *)
+Definition dec_fields : P (option signal) :=
+   tid <- rd 8 ;; ssi <- rdb ;; priv <- rdb ;; sap <- rd 2 ;; _ <- rd 12 ;;
    proto <- rd 8 ;; encp <- rdb ;; alg <- rd 6 ;; adj <- rd 33 ;; cw <- rd 8 ;; tier <- rd 12 ;;
    _ <- rd 12 ;; ct <- rd 8 ;;
    cmd <- (if ct =? 0 then ret (Some CNull)
@@ -173,25 +173,47 @@ Definition dec_signal_p (bs : bits) : option (option (signal * bool) * bits) :=
    | Some c =>
        if encp then ret None else
        dl <- rd 16 ;;
-       fun r =>
-       match dec_descs (S (Z.to_nat dl)) (8 * dl) r with
-       | None => None
-       | Some (None, r') => Some (None, r')
-       | Some (Some ds, r') =>
-           match rd 32 r' with
-           | None => None
-           | Some (crc, r'') =>
-               let consumed := firstn (length bs - length r'') bs in
-               Some (Some ({| sg_table_id := tid; sg_sap := sap; sg_ssi := ssi; sg_private := priv;
-                              sg_protocol := proto; sg_enc_alg := alg; sg_pts_adj := adj; sg_cw := cw;
-                              sg_tier := tier; sg_cmd := c; sg_descs := ds |},
-                           crc32 consumed =? 0), r'')
-           end
+       ds <- dec_descs (S (Z.to_nat dl)) (8 * dl) ;;
+       match ds with
+       | None => ret None
+       | Some ds =>
+           ret (Some {| sg_table_id := tid; sg_sap := sap; sg_ssi := ssi; sg_private := priv;
+                        sg_protocol := proto; sg_enc_alg := alg; sg_pts_adj := adj; sg_cw := cw;
+                        sg_tier := tier; sg_cmd := c; sg_descs := ds |})
        end
-   end) bs.
+   end.
+
+(* ... then the 32-bit CRC; crc_valid = CRC over everything consumed is zero *)
+Definition dec_signal_p (bs : bits) : option (option (signal * bool) * bits) :=
+  match dec_fields bs with
+  | None => None
+  | Some (None, r) => Some (None, r)
+  | Some (Some s, r') =>
+      match rd 32 r' with
+      | None => None
+      | Some (crc, r'') => Some (Some (s, crc32 (firstn (length bs - length r'') bs) =? 0), r'')
+      end
+  end.
 Definition dec_signal (bs : bits) : option (option signal * bool) :=
   match dec_signal_p bs with
   | Some (Some (s, ok), _) => Some (Some s, ok)
   | Some (None, _) => Some (None, false)
   | None => None
   end.
+
+(* Scte35Events.create_binary_signal: the section carried for event k at instant pt *)
+From Verif Require Import Model.EventsModel.
+Definition event_signal (s : sched) (program_id k pt : Z) : signal :=
+  let avail_num := if 0 <? e_count s then 1 + k / 2 else 0 in
+  let avails_expected := if 0 <? e_count s then 1 + e_count s / 2 else 0 in
+  {| sg_table_id := 252; sg_sap := 0; sg_ssi := false; sg_private := false; sg_protocol := 0;
+     sg_enc_alg := 0; sg_pts_adj := 0; sg_cw := 255; sg_tier := 4095;
+     sg_cmd := CInsert {| si_id := k; si_out := true; si_pts := Some (scte35_pts s pt);
+                          si_break := Some {| bd_auto := Z.even k; bd_dur := scte35_break s |};
+                          si_program_id := program_id; si_avail_num := avail_num;
+                          si_avails_expected := avails_expected |};
+     sg_descs := [DSeg 1129661769
+                   {| sd_event_id := avail_num; sd_duration := Some 0; sd_dnr := true; sd_web := true;
+                      sd_noreg := true; sd_archive := true; sd_device := 3; sd_upid_type := 15; sd_upid := [];
+                      sd_type := 52 + k mod 2; sd_num := 0; sd_expected := 0; sd_sub_num := 0;
+                      sd_sub_expected := 0 |}] |}.
